@@ -1,9 +1,20 @@
 """C15 - GeoNetworking router is safe under concurrent origination, reception and timers.
 
-Decides the schedule-independent necessary conditions: lockset discipline of the shared router / location
-table state, atomic check-then-act sections, acyclic lock order and no self-deadlock on non-reentrant locks,
-immutability of position vectors and single-snapshot use of the ego PV, flush-after-pop of the LS buffer.
-Does not decide the claims as schedule properties (numbers actually observed, exactly-once after the reply).
+Decides the schedule-independent necessary conditions: lockset discipline (lockset: every access - or every write /
+read-modify-write, as the shared-state table says - to the 13 shared fields of router and location table holds the
+lock the table names); atomic check-then-act sections (atomic: no read of a guarded field in one critical section
+followed by its write in another section of the same lock; the CBF timer sends only after removing its key, outside
+_cbf_lock; duplicate handling cancels the buffered timer inside the section that popped it; the LS reply re-issues
+exactly what it popped under _ls_lock, outside that lock; and every critical section of _ls_lock / _cbf_lock /
+sequence_number_lock decides on fresh reads - no test inside it uses a local bound BEFORE the lock was taken from
+location-table, LS, CBF or sequence-number state); lock order (order: acquired-while-held graph through resolved calls
+and wired callbacks acyclic, re-acquisition only of RLocks); position vectors (pv-snapshot: the PV / TST / address
+classes are frozen dataclasses without in-place stores; no PV construction takes two or more fields from separate reads
+of a shared position vector; and no emitted composite - dict literal or record construction - takes two or more fields
+from separate reads of self.ego_position_vector, which a refresh in between would turn into a position that never was
+the ego position).
+Does not decide the claims as schedule properties (sequence numbers actually observed, exactly-once after the reply),
+races that stay inside one critical-section order, nor thread failure through I/O faults (printed as notes only).
 """
 from __future__ import annotations
 
